@@ -40,7 +40,7 @@ func genCase(r *gen.Rand, i int) any {
 		*slowFlag = true
 	}
 	ks := strings.Split(*kindsFlag, ",")
-	return Case{K: gen.Pick(r, ks), Seed: r.U64()}
+	return Case{K: gen.Pick(r, ks), Seed: r.U64() ^ ro.SeedMix()}
 }
 
 const nodeA = "127.0.0.1:6379"
